@@ -23,10 +23,13 @@ func TestVerif_C16_CrashDuringOpen(t *testing.T) {
 	if base == "" {
 		base = os.TempDir()
 	}
-	for n := 1; n <= 8; n++ {
+	for n := 1; n <= 12; n++ {
 		ext := ".vlog"
 		if n > 4 {
 			ext = ".mem" // the same window exists for the write-ahead log of the next memtable
+		}
+		if n > 8 {
+			ext = "MANIFEST-REWRITE" // badger rewrites its manifest as create, write, sync, rename: a kill in between leaves this file behind (empty or torn)
 		}
 		dir, err := os.MkdirTemp(base, "c16b-")
 		if err != nil {
@@ -55,26 +58,44 @@ func TestVerif_C16_CrashDuringOpen(t *testing.T) {
 			_ = d.Close()
 		}
 		// the next value-log / memtable file exists but was never initialised
+		// (wherever the store keeps such files: they are looked for below the store directory, not only in it)
 		var fids []string
-		ents, _ := os.ReadDir(dir)
-		for _, e := range ents {
-			if strings.HasSuffix(e.Name(), ext) {
-				fids = append(fids, e.Name())
+		where := dir
+		_ = filepath.Walk(dir, func(p string, info os.FileInfo, err error) error {
+			if err == nil && !info.IsDir() && strings.HasSuffix(info.Name(), ext) {
+				fids = append(fids, info.Name())
+				where = filepath.Dir(p)
 			}
-		}
+			return nil
+		})
 		sort.Strings(fids)
 		last := 0
 		if len(fids) > 0 {
 			fmt.Sscanf(fids[len(fids)-1], "%d", &last)
 		}
 		name := fmt.Sprintf("%06d.vlog", last+1)
-		if ext == ".mem" {
+		var content []byte
+		switch {
+		case ext == ".mem":
 			name = fmt.Sprintf("%05d.mem", last+1)
+		case ext == "MANIFEST-REWRITE":
+			name, where = ext, dir
+			if _, err := os.Stat(filepath.Join(dir, "MANIFEST")); err != nil {
+				_ = filepath.Walk(dir, func(p string, info os.FileInfo, err error) error {
+					if err == nil && info.Name() == "MANIFEST" {
+						where = filepath.Dir(p)
+					}
+					return nil
+				})
+			}
+			if n%2 == 0 {
+				content = []byte{0x42, 0x67, 0x64, 0x72, 0, 0, 0, 8} // torn: the first bytes of a manifest and nothing else
+			}
 		}
-		if err := os.WriteFile(filepath.Join(dir, name), nil, 0o666); err != nil {
+		if err := os.WriteFile(filepath.Join(where, name), content, 0o666); err != nil {
 			t.Fatal(err)
 		}
-		pl.Record(c, vh.Outcome{NonTrivial: true, Labels: []string{"zero-length" + ext + "-after-kill"}})
+		pl.Record(c, vh.Outcome{NonTrivial: true, Labels: []string{"leftover-" + ext + "-after-kill"}})
 		d, err = Open(dir)
 		if err != nil {
 			os.RemoveAll(dir)
